@@ -19,6 +19,7 @@ REQUIRED_COUNTERS = ["c18_batches", "c18_predicates", "c18_episodes"]
 MIN_NONTRIVIAL = {"quick": 400, "thorough": 6000}
 WORKERS = {"quick": 14, "thorough": 16}
 BUDGET_S = {"quick": 400, "thorough": 3000}
+THOROUGH_ROUNDS = 2
 
 
 def cases(tier, seed):
